@@ -21,7 +21,9 @@ TInit == /\ pc = "idle" /\ req = [none |-> TRUE] /\ bodyRead = FALSE /\ saw = No
          /\ err = NoErr /\ hookSaw = "none" /\ resp = NoResp /\ bound = Unbound /\ l = 1
          /\ TLCSet(1, 1)
 
-TReq == IsEvent("Req") /\ Start(Tr[l].req)
+\* (body.framing: how the harness let the body travel - announced length or chunked; Start and every later
+\* action ignore it, which is the statement that the life cycle does not depend on it)
+TReq == IsEvent("Req") /\ Start(Tr[l].req) /\ Tr[l].req.body.framing \in {"sized", "chunked", "none"}
 
 \* the header parameters read from the real OpenAPI document for the operation of the current request
 ParamSet(ps) == {[lname |-> p.lname, required |-> p.required, type |-> p.type, format |-> p.format] : p \in Range(ps)}
